@@ -15,7 +15,7 @@ TARGETS = ["theories/Properties/C16.vo"]
 PROPERTIES_FILE = "theories/Properties/C16.v"
 IMPL = "harness.props.c16_impl"
 TAGGED = True
-SHARD = 300
+SHARD = 2500
 NWORKERS = 2
 TABLE_DEPS = ["rd_str_escapes", "rd_bytes_escapes", "rd_special_chars", "rd_numeric_constants",
               "rd_dispatch", "rd_macro_dispatch", "rd_regex_sources", "rd_ns_term_exempt",
